@@ -42,9 +42,9 @@ func addConstGroups(es []ent, r *vh.Rng) []ent {
 		var consts []cinfo
 		var lines []string
 		refs := map[int]bool{}
-		class := ""     // class of the current (explicit or repeated) value list
+		class := ""      // class of the current (explicit or repeated) value list
 		haveVal := false // an earlier spec has values: implicit repetition allowed
-		width := 1      // names per spec of the current value list
+		width := 1       // names per spec of the current value list
 		nspec := 3 + r.Intn(5)
 		for k := 0; k < nspec; k++ {
 			mk := func() string {
